@@ -5,6 +5,7 @@
 -/
 import LpProofs.C12.Lemmas
 import LpProofs.C12.Legendre
+import LpProofs.C12.N2
 namespace Lp.C12
 
 /-! ## [T1] gl_mirror -/
@@ -191,7 +192,7 @@ theorem gl_overloads_agree (f : Rat â†’ Rat) (a b : Rat) (n : Nat) (z pp : Nat â
 
 /-! ## [T2] the coded recurrence, its derivative, the middle root, n = 1 -/
 
--- `legendre_derivative`, `legendre_odd_zero`, `newton_middle_root`, `gl_exact_n1` are in
+-- `legendre_derivative`, `legendre_odd_zero`, `newton_middle_root`, `gl_exact_n1` (Legendre.lean), `gl_n2_defect` (N2.lean) are in
 -- LpProofs/C12/Legendre.lean (re-exported here under the names listed in obligations/C12.txt).
 
 end Lp.C12
